@@ -345,6 +345,16 @@ impl FieldParser {
 }
 
 impl TemplateField {
+    // The field type number as it appears on the wire: enterprise-specific fields carry
+    // the enterprise bit, which parsing strips from `field_type_number`.
+    fn wire_type_number(&self) -> u16 {
+        if self.enterprise_number.is_some() {
+            self.field_type_number | 0x8000
+        } else {
+            self.field_type_number
+        }
+    }
+
     // If 65335, read 1 byte.
     // If that byte is < 255 that is the length.
     // If that byte is == 255 then read 2 bytes.  That is the length.
@@ -396,7 +406,7 @@ impl IPFix {
                 result_flowset.extend_from_slice(&template.field_count.to_be_bytes());
 
                 for field in template.fields.iter() {
-                    result_flowset.extend_from_slice(&field.field_type_number.to_be_bytes());
+                    result_flowset.extend_from_slice(&field.wire_type_number().to_be_bytes());
                     result_flowset.extend_from_slice(&field.field_length.to_be_bytes());
                     if let Some(enterprise) = field.enterprise_number {
                         result_flowset.extend_from_slice(&enterprise.to_be_bytes());
@@ -412,7 +422,7 @@ impl IPFix {
                     .extend_from_slice(&options_template.scope_field_count.to_be_bytes());
 
                 for field in options_template.fields.iter() {
-                    result_flowset.extend_from_slice(&field.field_type_number.to_be_bytes());
+                    result_flowset.extend_from_slice(&field.wire_type_number().to_be_bytes());
                     result_flowset.extend_from_slice(&field.field_length.to_be_bytes());
                     if let Some(enterprise) = field.enterprise_number {
                         result_flowset.extend_from_slice(&enterprise.to_be_bytes());
